@@ -62,23 +62,50 @@ def c_use(tr):
     raise TraceError("instance used by %s" % tr[0])
 
 
-def to_ops(events, rq_json):
-    """-> (coq term of type list (op * list obs), number of operations, histogram of op kinds)"""
-    out, kinds, hist = _build(events, rq_json)
+class HookMissing(TraceError):
+    pass
+
+
+def to_ops(events, rq_json=None):
+    """-> (coq term of type list (lop * list obs), number of operations, histogram of op kinds)"""
+    out, kinds, hist, pending = _build(events, False)
     return _l(out), len(out), hist
 
 
-def op_kinds(events, rq_json):
+def op_kinds(events, rq_json=None):
     """the kind of every operation of the trace, in order (to name the operation a replay stops at)"""
-    return _build(events, rq_json)[1]
+    return _build(events, False)[1]
 
 
-def _build(events, rq_json):
-    extern_names = {}
-    for t in rq_json.get("tables", []):
-        k = t["relation"]["kind"]
-        if isinstance(k, dict) and "ExternRef" in k and isinstance(k["ExternRef"], dict) and "LocalTable" in k["ExternRef"]:
-            extern_names[t["id"]] = k["ExternRef"]["LocalTable"]
+def to_prefix(events):
+    """trace of a compilation that ended in an error -> (term of the complete operations, their number, pending term or None):
+    the events that do not complete an operation are dropped, except a final `push_select` (push_select itself failed)"""
+    out, kinds, hist, pending = _build(events, True)
+    return _l(out), len(out), pending
+
+
+def c_lineage(lin):
+    """-> (inputs term, lcols term)"""
+    inputs = _l([str(i["id"]) for i in lin["inputs"]])
+    cols = []
+    for c in lin["columns"]:
+        if isinstance(c, dict) and "Single" in c:
+            v = c["Single"]
+            name = v["name"][-1] if v.get("name") else None
+            cols.append("(LSingle %s %d %s)" % (_os(name), v["target_id"], _os(v.get("target_name"))))
+        elif isinstance(c, dict) and "All" in c:
+            v = c["All"]
+            cols.append("(LAll %d %s)" % (v["input_id"], _l([_s(x) for x in sorted(v["except"])])))
+        else:
+            raise TraceError("lineage column %r" % (c,))
+    return inputs, _l(cols)
+
+
+class _Truncated(Exception):
+    pass
+
+
+def _build(events, partial):
     ev = [(e.get("op"), e.get("d") or {}) for e in events]
     n = len(ev)
     out = []
@@ -86,15 +113,23 @@ def _build(events, rq_json):
     hist = {}
     depth = 0       # open frames
     i = 0
+    pending = None
 
     def emit(kind, op, obs):
         out.append("(%s, %s)" % (op, _l(obs)))
         kinds.append(kind)
         hist[kind] = hist.get(kind, 0) + 1
 
-    def need(j, *kinds):
-        if j >= n or ev[j][0] not in kinds:
-            raise TraceError("event %d: expected %s, found %s" % (j, "/".join(kinds), ev[j][0] if j < n else "end of trace"))
+    def lop(o):
+        return "LOp (%s)" % o
+
+    def need(j, *kinds_):
+        if j >= n:
+            if partial:
+                raise _Truncated()
+            raise TraceError("event %d: expected %s, found end of trace" % (j, "/".join(kinds_)))
+        if ev[j][0] not in kinds_:
+            raise TraceError("event %d: expected %s, found %s" % (j, "/".join(kinds_), ev[j][0]))
         return ev[j][1]
 
     def instance_at(j):
@@ -119,96 +154,150 @@ def _build(events, rq_json):
         obs.append("(BInput %d %s)" % (d["node"], c_icols(icols)))
         return src, d["node"], _os(d["name"]), icols, obs, j + 1
 
-    def push_at(j, *kinds):
+    def push_at(j, *kinds_):
         d = need(j, "push")
         tr = rqcoq.transform(d["transform"])
-        if kinds and tr[0] not in kinds:
-            raise TraceError("event %d: push of %s, expected %s" % (j, tr[0], "/".join(kinds)))
+        if kinds_ and tr[0] not in kinds_:
+            raise TraceError("event %d: push of %s, expected %s" % (j, tr[0], "/".join(kinds_)))
         return tr
 
-    while i < n:
-        k, d = ev[i]
-        if k == "extern":
-            if d["tid"] not in extern_names:
-                raise TraceError("extern table %s is not in the RQ" % d["tid"])
-            emit("ODeclExtern", "ODeclExtern %s %s" % (_l([_s(x) for x in extern_names[d["tid"]]]), _l([c_relcol(rqcoq.relcol(c)) for c in d["columns"]])),
-                 ["(BTable %d)" % d["tid"]])
-            i += 1
-        elif k in ("reserve", "relation_begin"):
-            obs = []
-            inline = k == "reserve"
-            if inline:
-                obs.append("(BReserved %d)" % d["tid"])
-                need(i + 1, "relation_begin")
+    try:
+        while i < n:
+            k, d = ev[i]
+            if k == "extern":
+                if "kind" not in d:
+                    raise HookMissing("the `extern` event has no `kind` (hooks/extern-kind.diff is not in this tree)")
+                rel = rqcoq.relation({"kind": d["kind"], "columns": d["columns"]})
+                if rel[1][0] != "KExternRef":
+                    raise TraceError("extern event of kind %s" % rel[1][0])
+                emit("ODeclExtern", lop("ODeclExtern %s %s" % (_l([_s(x) for x in rel[1][1]]), _l([c_relcol(c) for c in rel[2]]))),
+                     ["(BTable %d)" % d["tid"]])
                 i += 1
-            src, node, name, icols, o2, j = instance_at(i + 1)
-            tr = push_at(j, "TFrom")
-            depth += 1
-            emit("OBegin", "OBegin %s %d %s %s" % ("true" if inline else "false", node, name, src),
-                 obs + ["(BDepth %d)" % depth] + o2 + ["(BTop %s)" % c_transform(tr)])
-            i = j + 1
-        elif k == "loop_begin":
-            need(i + 1, "relation_begin")
-            depth += 1
-            emit("OBeginLoop", "OBeginLoop", ["(BDepth %d)" % depth])
-            i += 2
-        elif k in ("leaf", "instance"):
-            src, node, name, icols, obs, j = instance_at(i)
-            tr = push_at(j, "TJoin", "TAppend")
-            emit("OInstance", "OInstance %d %s %s %s" % (node, name, src, c_use(tr)), obs + ["(BTop %s)" % c_transform(tr)])
-            i = j + 1
-        elif k == "declare":
-            how = d.get("how")
-            if how == "cached":
-                emit("ODeclare-cached", "ODeclare %d ELit None false false" % d["node"], ["(BCid %d %d)" % (d["node"], d["cid"])])
-            elif how == "alias":
-                emit("ODeclare-alias", "ODeclare %d (ERef %d) None false true" % (d["node"], d["cid"]), ["(BCid %d %d)" % (d["node"], d["cid"])])
-            elif how == "new":
-                tr = rqcoq.transform({"Compute": d["compute"]})
-                emit("ODeclare-new", "ODeclare %d %s %s %s false" % (d["node"], c_expr(tr[2]), c_window(tr[3]), "true" if tr[4] else "false"),
-                     ["(BCid %d %d)" % (d["node"], tr[1]), "(BTop %s)" % c_transform(tr)])
-            else:
-                raise TraceError("declare how=%r" % (how,))
-            i += 1
-        elif k == "push":
-            tr = push_at(i, "TSelect", "TFilter", "TAggregate", "TSort", "TTake")
-            emit("OPush", "OPush %s" % c_transform(tr), ["(BTop %s)" % c_transform(tr)])
-            i += 1
-        elif k == "relation_end":
-            sel = rqcoq.transform(d["select"]) if d.get("select") is not None else None
-            if sel is None or sel[0] != "TSelect":
-                raise TraceError("relation_end without a closing Select")
-            nxt = ev[i + 1][0] if i + 1 < n else None
-            if nxt == "loop_end":
-                depth -= 1
-                emit("OEndLoop", "OEndLoop", ["(BDepth %d)" % depth])
+            elif k in ("reserve", "relation_begin"):
+                obs = []
+                inline = k == "reserve"
+                if inline:
+                    obs.append("(BReserved %d)" % d["tid"])
+                    need(i + 1, "relation_begin")
+                    i += 1
+                src, node, name, icols, o2, j = instance_at(i + 1)
+                tr = push_at(j, "TFrom")
+                depth += 1
+                emit("OBegin", lop("OBegin %s %d %s %s" % ("true" if inline else "false", node, name, src)),
+                     obs + ["(BDepth %d)" % depth] + o2 + ["(BTop %s)" % c_transform(tr)])
+                i = j + 1
+            elif k == "loop_begin":
+                need(i + 1, "relation_begin")
+                depth += 1
+                emit("OBeginLoop", lop("OBeginLoop"), ["(BDepth %d)" % depth])
                 i += 2
-            elif nxt == "table":
-                t = ev[i + 1][1]
-                frame = c_frame(d["columns"], sel[1])
-                depth -= 1
-                emit("OEndTable", "OEndTable %s %s" % (_os(t["name"]), frame), ["(BTable %d)" % t["tid"], "(BDepth %d)" % depth])
-                i += 2
-            elif nxt == "inline_table":
-                t = ev[i + 1][1]
-                frame = c_frame(d["columns"], sel[1])
-                src, node, name, icols, obs, j = instance_at(i + 2)
-                if src != "(SExisting %d)" % t["tid"] or name != "None":
-                    raise TraceError("inline table %s instantiated as %s %s" % (t["tid"], src, name))
-                r = need(j, "redirect")
-                pairs = _l(["(%d, %d)" % (a, b) for a, b in r["pairs"]])
-                tr = push_at(j + 1, "TJoin", "TAppend")
-                depth -= 1
-                emit("OEndInline", "OEndInline %d %s %s" % (node, frame, c_use(tr)),
-                     ["(BTable %d)" % t["tid"], "(BDepth %d)" % depth] + obs + ["(BRedirect %s)" % pairs, "(BTop %s)" % c_transform(tr)])
-                i = j + 2
+            elif k in ("leaf", "instance"):
+                src, node, name, icols, obs, j = instance_at(i)
+                tr = push_at(j, "TJoin", "TAppend")
+                emit("OInstance", lop("OInstance %d %s %s %s" % (node, name, src, c_use(tr))), obs + ["(BTop %s)" % c_transform(tr)])
+                i = j + 1
+            elif k == "declare":
+                how = d.get("how")
+                if how == "cached":
+                    emit("ODeclare-cached", lop("ODeclare %d ELit None false false" % d["node"]), ["(BCid %d %d)" % (d["node"], d["cid"])])
+                elif how == "alias":
+                    emit("ODeclare-alias", lop("ODeclare %d (ERef %d) None false true" % (d["node"], d["cid"])), ["(BCid %d %d)" % (d["node"], d["cid"])])
+                elif how == "new":
+                    tr = rqcoq.transform({"Compute": d["compute"]})
+                    emit("ODeclare-new", lop("ODeclare %d %s %s %s false" % (d["node"], c_expr(tr[2]), c_window(tr[3]), "true" if tr[4] else "false")),
+                         ["(BCid %d %d)" % (d["node"], tr[1]), "(BTop %s)" % c_transform(tr)])
+                else:
+                    raise TraceError("declare how=%r" % (how,))
+                i += 1
+            elif k == "push":
+                tr = push_at(i, "TSelect", "TFilter", "TAggregate", "TSort", "TTake")
+                emit("OPush", lop("OPush %s" % c_transform(tr)), ["(BTop %s)" % c_transform(tr)])
+                i += 1
+            elif k == "push_select":
+                # the input of push_select; its output is the relation_end event that follows (none when push_select failed)
+                inputs, lcols = c_lineage(d["lineage"])
+                if i + 1 >= n:
+                    if not partial:
+                        raise TraceError("trace ends with the input of push_select")
+                    pending = (inputs, lcols)
+                    i += 1
+                    continue
+                e = need(i + 1, "relation_end")
+                sel = rqcoq.transform(e["select"]) if e.get("select") is not None else None
+                if sel is None or sel[0] != "TSelect":
+                    raise TraceError("relation_end without a closing Select")
+                nxt = ev[i + 2][0] if i + 2 < n else None
+                if nxt is None and partial:
+                    raise _Truncated()
+                if nxt == "loop_end":
+                    if d["lineage"]["columns"]:
+                        raise TraceError("the closure of a loop has a lineage")
+                    depth -= 1
+                    emit("OEndLoop", lop("OEndLoop"), ["(BDepth %d)" % depth])
+                    i += 3
+                elif nxt == "table":
+                    t = ev[i + 2][1]
+                    frame = c_frame(e["columns"], sel[1])
+                    depth -= 1
+                    emit("OEndTable", "LEndTable %s %s %s" % (_os(t["name"]), inputs, lcols), ["(BFrame %s)" % frame, "(BTable %d)" % t["tid"], "(BDepth %d)" % depth])
+                    i += 3
+                elif nxt == "inline_table":
+                    t = ev[i + 2][1]
+                    frame = c_frame(e["columns"], sel[1])
+                    src, node, name, icols, obs, j = instance_at(i + 3)
+                    if src != "(SExisting %d)" % t["tid"] or name != "None":
+                        raise TraceError("inline table %s instantiated as %s %s" % (t["tid"], src, name))
+                    r = need(j, "redirect")
+                    pairs = _l(["(%d, %d)" % (a_, b_) for a_, b_ in r["pairs"]])
+                    tr = push_at(j + 1, "TJoin", "TAppend")
+                    depth -= 1
+                    emit("OEndInline", "LEndInline %d %s %s %s" % (node, inputs, lcols, c_use(tr)),
+                         ["(BFrame %s)" % frame, "(BTable %d)" % t["tid"], "(BDepth %d)" % depth] + obs + ["(BRedirect %s)" % pairs, "(BTop %s)" % c_transform(tr)])
+                    i = j + 2
+                else:
+                    raise TraceError("event %d: relation_end followed by %s" % (i + 1, nxt))
+            elif k == "relation_end":
+                raise HookMissing("`relation_end` without the input of push_select in front of it (hooks/push-select.diff is not in this tree)")
             else:
-                raise TraceError("event %d: relation_end followed by %s" % (i, nxt))
-        else:
-            raise TraceError("event %d: unexpected %s" % (i, k))
-    if depth != 0:
+                raise TraceError("event %d: unexpected %s" % (i, k))
+    except _Truncated:
+        pass
+    if depth != 0 and not partial:
         raise TraceError("trace ends with %d open relation(s)" % depth)
-    return out, kinds, hist
+    pterm = None
+    if pending is not None:
+        # which operation it would have been does not matter for `elaborate`: LEndTable
+        pterm = "(LEndTable None %s %s)" % pending
+    return out, kinds, hist, pterm
+
+
+def lowered_names(events):
+    """the tables lower_table_decl declared, in order: last path component of an extern table, name of a relation variable"""
+    out = []
+    for e in events:
+        if e.get("op") == "extern":
+            k = (e["d"].get("kind") or {}).get("ExternRef", {}).get("LocalTable")
+            out.append(k[-1] if k else None)
+        elif e.get("op") == "table":
+            out.append(e["d"].get("name"))
+    return out
+
+
+def toposort_case(t):
+    """hook `toposort_tables` (hooks/toposort-tables.diff) {dependencies: [(ident, [ident])], main, order} ->
+    (coq expression `toposort dag fuel start`, expected order as indices, names in order).
+    Mirrors the first lines of utils/toposort.rs: keys -> positions in `dependencies`, unknown dependencies dropped."""
+    deps = t["dependencies"]
+    keys = [tuple(k) for k, _ in deps]
+    index = {}
+    for i_, k in enumerate(keys):
+        index[k] = i_        # HashMap collect: a later equal key would win; keys are distinct idents
+    dag = [[index[tuple(x)] for x in ds if tuple(x) in index] for _, ds in deps]
+    start = index[tuple(t["main"])]
+    order = [index[tuple(x)] for x in t["order"]]
+    nat = lambda xs: "[" + "; ".join("%d%%nat" % x for x in xs) + "]"
+    expr = "(toposort (fun n => nth n [%s] []) %d %d)" % ("; ".join(nat(x) for x in dag), len(keys) + 2, start)
+    return expr, order, [list(x) for x in t["order"]]
 
 
 def perturbations(events, rng):
@@ -243,6 +332,11 @@ def perturbations(events, rng):
         ev = copy.deepcopy(events)
         ev[rng.choice(push)]["d"]["transform"]["Select"].pop()
         out.append(("select-id-dropped", ev))
+    rel = idx(lambda e: e.get("op") == "relation_end" and (e["d"].get("select") or {}).get("Select"))
+    if rel:
+        ev = copy.deepcopy(events)
+        ev[rng.choice(rel)]["d"]["select"]["Select"][-1] += 1
+        out.append(("frame-cid+1", ev))
     anyi = idx(lambda e: e.get("op") == "push" or (e.get("op") == "declare" and e["d"].get("how") == "new"))
     if anyi:
         ev = copy.deepcopy(events)
@@ -251,5 +345,5 @@ def perturbations(events, rng):
     return out
 
 
-COQ_HEADER = ("From Coq Require Import List NArith Bool.\nFrom PV Require Import Lib.ListX Model.Rq Model.RqWf Model.Lowerer Model.RqEq Model.LowererTrace Model.LowererVis.\n"
+COQ_HEADER = ("From Coq Require Import List NArith Bool.\nFrom PV Require Import Lib.ListX Model.Rq Model.RqWf Model.Lowerer Model.RqEq Model.LowererTrace Model.LowererVis Model.LowererSelect.\n"
               "Import ListNotations.\nLocal Open Scope N_scope.\n")
